@@ -367,6 +367,8 @@ def templates(cls):
         "setop": [["from_", [["src", "T"]]], ["select", [A]], ["union", [["q", SUB_T]]]],
         "force_index_for_update": [["from_", [["src", "T"]]], ["select", [A]], ["force_index", [["py", "ix"]]], ["for_update", []]],
     }
+    # the right operand of a bit test is a column of OLD
+    t["bitand_column_operand"] = [["from_", [["src", "U"]]], J("inner", ["on", [["eq", UA, A]]]), ["select", [UA]], ["where", [["call", UA, "bitwiseand", [B]]]]]
     # a self-join written with two objects for OLD: the second occurrence carries the automatic alias <name>2
     t["self_join"] = [["from_", [["src", "T"]]], ["join", [["src", "TT"], ["enum", "JoinType", "cross"]], {}, ["cross", []]], ["select", [A, ["col", "TT", "b"]]]]
     t["self_join_from_twice"] = [["from_", [["src", "T"]]], ["from_", [["src", "TT"]]], ["select", [A, ["col", "TT", "b"]]], ["where", [["eq", A, ["col", "TT", "a"]]]]]
